@@ -190,6 +190,35 @@ def run(ctx: Ctx) -> None:
             if is_link and a != b and "\n" not in title and not dest.endswith("\\"):
                 ctx.fail("ref!=inline", "a reference link/image differs from the inline form with the same text, destination and title",
                          {"input": ref, "inline": inl, "inline_html": a, "reference_html": b})
+    # ---- a title candidate that is rejected must leave no trace: the definition is the destination alone (when the candidate
+    # stands on a later line) or no definition at all (when it stands on the destination's line); decided by the grammar,
+    # compared with the inline form without a title
+    for dest in ("/x", "<a b>", "http://x.y/?q=1", "/w_(v)"):
+        for cand in ('"t"', "'t'", "(t)", '"t\nu"', "'multi\nline'"):
+            for junk in ("junk", "*e*", "\\", "[q]"):
+                for bang in ("", "!"):
+                    ctx.count(("rollback", dest, cand, junk, bang), nontrivial=True)
+                    doc = f"[r]: {dest}\n{cand} {junk}\n\n{bang}[text][r]\n"
+                    want = f"{cand} {junk}\n\n{bang}[text]({dest})\n"
+                    env = {}
+                    try:
+                        got, exp = md.render(doc, env), md.render(want, {})
+                    except Exception:
+                        continue
+                    rec = env.get("references", {}).get("R")
+                    if rec is None or rec.get("title") not in ("", None) or got != exp:
+                        ctx.fail("rejected-title-leaks", "a title candidate followed by other text on its line is not part of the definition, "
+                                 "but the recorded definition / the resolved link is not the destination alone",
+                                 {"input": doc, "recorded": rec, "html": got[:300], "inline_form_html": exp[:300]})
+                    doc2 = f"[r]: {dest} {cand.splitlines()[0] if chr(10) not in cand else cand} {junk}\n\n[text][r]\n"
+                    env2 = {}
+                    try:
+                        got2 = md.render(doc2, env2)
+                    except Exception:
+                        continue
+                    if "\n" not in cand and (env2.get("references") or "<a " in got2.split("</p>")[-2] if got2.count("</p>") >= 2 else False):
+                        ctx.fail("rejected-title-leaks", "text after the title on the destination's line makes the whole line a paragraph, "
+                                 "but a definition was recorded", {"input": doc2, "recorded": env2.get("references"), "html": got2[:300]})
     for lab, variants in (("foo bar", ["FOO BAR", "Foo   Bar", " foo\tbar ", "foo\nbar"]), ("é", ["É"]), ("ß", ["SS", "ss", "ẞ"]),
                           ("ǆ", ["ǅ", "Ǆ"]), ("straße", ["STRASSE"])):
         doc0 = f"[{lab}]: /target\n\n"
